@@ -289,8 +289,10 @@ def targeted_histories(disk_root: Path) -> list[dict]:
         for kind in ("replace", "update_bound", "update_defaults"):
             for ctype in CACHE_TYPES:
                 idx += 1
-                tdesc = {"funcs": [fn("fa", ["x", "z"], ["a"], ca, [["z", {"f": "@d_z", "a": []}]]),
-                                   fn("fb", ["a", "y"], ["b"], cb)]}
+                # (a default on an UPSTREAM function's parameter would legitimately switch caching off for fb: the
+                # root argument is then absent from the key material; the default therefore sits on fb itself)
+                tdesc = {"funcs": [fn("fa", ["x"], ["a"], ca),
+                                   fn("fb", ["a", "y", "w"], ["b"], cb, [["w", {"f": "@d_w", "a": []}]])]}
                 ddir = str(disk_root / f"t{idx}") if ctype == "disk" else None
                 ckw = cache_kwargs_for(ctype, 0, False, ddir)
                 pc, pu = make_twins(tdesc, ctype, ckw)
@@ -304,7 +306,7 @@ def targeted_histories(disk_root: Path) -> list[dict]:
                 elif kind == "update_bound":
                     mut = {"op": "mutate", "kind": "update_bound", **blank, "f": "fa", "p": "x", "v": {"f": "@bnd_x", "a": []}}
                 else:
-                    mut = {"op": "mutate", "kind": "update_defaults", **blank, "p": "z", "v": {"f": "@d2_z", "a": []}}
+                    mut = {"op": "mutate", "kind": "update_defaults", **blank, "p": "w", "v": {"f": "@d2_w", "a": []}}
                 script = [call_b, mut, dict(call_b), call_a]
                 trace = {"desc": copy.deepcopy(tdesc), "ev": [], "script": script, "cache_type": ctype, "cache_kwargs": ckw,
                          "outcomes": []}
